@@ -58,6 +58,7 @@ func runC06(c *Ctx) {
 	c.c06NegativeDepthMeansUnlimited()
 	c.c06RefusalsBeforeChanges()
 	c.c06RawRemovalOnlyOfWhatIsEmpty()
+	c.c06OverlapByIdentity()
 	// Z21: "the values returned, the error kinds and the resulting tree are those of the reference model": an operation that
 	// failed half-way says so. In everything remove, clean, move and copy reach inside the package, an error assigned to a
 	// variable is read before it is overwritten (the obligation C04/N8 = C09/A17, evaluated for the operations of C06).
@@ -1713,5 +1714,129 @@ func (c *Ctx) c06RawRemovalOnlyOfWhatIsEmpty() {
 			c.check(callers > 0 && callers == guarded, "Z20", key, c.ipos(rem), "every caller reaches the function on the 'not a directory' side of its IsDir test of that path",
 				"the path handed to the backend's Remove is not known to be a link, a file or an empty directory: the in-memory backend removes a directory with its content and leaves that content behind, out of reach, where the OS backend answers 'directory not empty'")
 		})
+	}
+}
+
+// c06OverlapByIdentity (Z22): "a copy never changes its source, also when source and destination overlap" — whatever its
+// arguments. Comparing spellings cannot see that `g` and `/abs/path/to/g`, two names of one file, or the same path on two
+// filesystem objects over one disk, are one object: the guards also ask the filesystems (os.SameFile on what Stat reports).
+// Decided: in CopyBetweenFSWithExclusionRegexes every copy worker lies on the 'differ' side of a call to a function that
+// reaches os.SameFile and is handed the source and the resolved destination; the folder worker also on the 'not within'
+// side of such a test of the destination's ancestors; in MoveBetweenFS the removal of the source lies on the 'differ' side.
+func (c *Ctx) c06OverlapByIdentity() {
+	c.rule("Z22", "the copy workers, and the removal of the source by a move between filesystems, are reached only where the filesystems themselves said that source and destination are different objects (os.SameFile on their Stat results), not only where the spellings differ", 3)
+	identity := func(g *ssa.Function) bool {
+		found := false
+		seen := map[*ssa.Function]bool{}
+		var visit func(h *ssa.Function, d int)
+		visit = func(h *ssa.Function, d int) {
+			if h == nil || seen[h] || h.Blocks == nil || d > 2 {
+				return
+			}
+			seen[h] = true
+			allInstrs(h, func(in ssa.Instruction) {
+				if cc := callCommon(in); cc != nil {
+					if calleeFull(cc) == "os.SameFile" {
+						found = true
+					}
+					if k := staticCallee(cc); k != nil && inPkg(fsPkgRel)(k) {
+						visit(k, d+1)
+					}
+				}
+			})
+		}
+		visit(g, 0)
+		return found
+	}
+	isIdentityTest := func(src ssa.Value) func(v ssa.Value) bool {
+		return func(v ssa.Value) bool {
+			cl, ok := v.(*ssa.Call)
+			if !ok {
+				return false
+			}
+			g := staticCallee(&cl.Call)
+			if g == nil || !inPkg(fsPkgRel)(g) || !identity(g) {
+				return false
+			}
+			// a predicate: it answers yes or no and nothing else
+			if res := g.Signature.Results(); res.Len() != 1 || res.At(0).Type().String() != "bool" {
+				return false
+			}
+			for _, a := range cl.Call.Args {
+				if resolveValue(a) == src {
+					return true
+				}
+			}
+			return false
+		}
+	}
+	if f := c.fnOpt(fsPkgRel, "CopyBetweenFSWithExclusionRegexes"); f != nil {
+		c.FuncsSeen[fname(f)] = true
+		pi := paramIndexByName(f, "src")
+		if pi < 0 {
+			c.violate("Z22", fname(f)+"/workers", c.pos(f.Pos()), "the copy entry point has no parameter named src any more")
+		} else {
+			src := ssa.Value(f.Params[pi])
+			allInstrs(f, func(in ssa.Instruction) {
+				cl, ok := in.(*ssa.Call)
+				if !ok {
+					return
+				}
+				g := staticCallee(&cl.Call)
+				if g == nil || !(strings.HasPrefix(g.Name(), "copyFolderBetweenFS") || strings.HasPrefix(g.Name(), "copyFileBetweenFS")) {
+					return
+				}
+				c.check(onBoolSide(cl, false, isIdentityTest(src)), "Z22", fname(f)+"/worker:"+g.Name(), c.ipos(cl), "reached only where the filesystems said source and destination differ",
+					"the worker is reached on the strength of a comparison of spellings only: a copy onto the same object under a spelling that does not look alike — a relative and an absolute path, another name of the same file, the same path through another filesystem object — opens the destination for writing and truncates the source; a directory copied into itself that way is nested until the names become too long")
+			})
+		}
+	}
+	if f := c.fnOpt(fsPkgRel, "CopyBetweenFSWithExclusionRegexes"); f != nil {
+		// the containment of the destination in the source directory is asked of the filesystems too: some identity test handed
+		// the source walks up the ancestors of the destination (it asks in a loop)
+		if pi := paramIndexByName(f, "src"); pi >= 0 {
+			src := ssa.Value(f.Params[pi])
+			walksUp := false
+			allInstrs(f, func(in ssa.Instruction) {
+				cl, ok := in.(*ssa.Call)
+				if !ok || !isIdentityTest(src)(cl) {
+					return
+				}
+				g := staticCallee(&cl.Call)
+				allInstrs(g, func(i2 ssa.Instruction) {
+					if c2, ok := i2.(*ssa.Call); ok && inLoop(c2) {
+						if k := staticCallee(&c2.Call); (k != nil && identity(k)) || calleeFull(&c2.Call) == "os.SameFile" {
+							walksUp = true
+						}
+					}
+				})
+			})
+			c.check(walksUp, "Z22", fname(f)+"/containment-by-identity", c.pos(f.Pos()), "an identity test handed the source walks up the directories the destination is in",
+				"whether the destination lies inside the source directory is decided from the spellings only: Copy(\"a\", \"/abs/path/to/a/b\") from that directory is not recognised as a copy into itself and nests a into a/b/a/b/… until the names become too long")
+		}
+	}
+	if f := c.fnOpt(fsPkgRel, "MoveBetweenFS"); f != nil {
+		c.FuncsSeen[fname(f)] = true
+		pi := paramIndexByName(f, "src")
+		if pi >= 0 {
+			src := ssa.Value(f.Params[pi])
+			allInstrs(f, func(in ssa.Instruction) {
+				cl, ok := in.(*ssa.Call)
+				if !ok {
+					return
+				}
+				nm := ""
+				if cl.Call.IsInvoke() {
+					nm = cl.Call.Method.Name()
+				} else if g := staticCallee(&cl.Call); g != nil {
+					nm = g.Name()
+				}
+				if !strings.HasPrefix(nm, "Remove") && nm != "Rm" {
+					return
+				}
+				c.check(onBoolSide(cl, false, isIdentityTest(src)), "Z22", fname(f)+"/source-kept:"+nm, c.ipos(cl), "the source is removed only where the filesystems said it is not the destination",
+					"the source is removed on the strength of a comparison of spellings only: moved onto itself under a spelling that does not look alike (`m` and `/abs/path/to/m`), the copy has nothing to do and the removal deletes the only copy")
+			})
+		}
 	}
 }
